@@ -631,6 +631,15 @@ func (cs *chargingStation) Stop() {
 	// late cleanup, nor inherit the callbacks of this one.
 	// No callback invocation, since the user manually stopped the client.
 	cs.clearCallbacks(false)
+	// Outcomes of this session that were not served yet (the callback handler was busy) are discarded as well:
+	// they must not be taken for outcomes of a session started afterwards.
+	for drained := false; !drained; {
+		select {
+		case <-cs.outcomeHandler:
+		default:
+			drained = true
+		}
+	}
 }
 
 func (cs *chargingStation) IsConnected() bool {
